@@ -2,10 +2,12 @@
 package ref
 
 import (
+	"fmt"
 	"math"
 	"math/big"
 	"strconv"
 	"strings"
+	"unicode/utf8"
 )
 
 type Kind uint8
@@ -323,4 +325,41 @@ func (n *Node) renderNumeric(sb *strings.Builder) {
 	default:
 		n.render(sb)
 	}
+}
+
+// QuoteJSONEscaped renders a string literal with every byte sequence that is valid UTF-8
+// and not printable ASCII written as \uXXXX escapes (surrogate pairs above U+FFFF).
+func QuoteJSONEscaped(s []byte) string {
+	var sb strings.Builder
+	sb.WriteByte('"')
+	for i := 0; i < len(s); {
+		c := s[i]
+		switch {
+		case c == '"':
+			sb.WriteString(`\"`)
+			i++
+		case c == '\\':
+			sb.WriteString(`\\`)
+			i++
+		case c >= 0x20 && c < 0x7f:
+			sb.WriteByte(c)
+			i++
+		default:
+			r, sz := utf8.DecodeRune(s[i:])
+			if r == utf8.RuneError && sz <= 1 {
+				sb.WriteByte(c)
+				i++
+				continue
+			}
+			if r > 0xffff {
+				r -= 0x10000
+				fmt.Fprintf(&sb, "\\u%04x\\u%04X", 0xd800+(r>>10), 0xdc00+(r&0x3ff))
+			} else {
+				fmt.Fprintf(&sb, "\\u%04X", r)
+			}
+			i += sz
+		}
+	}
+	sb.WriteByte('"')
+	return sb.String()
 }
